@@ -31,6 +31,12 @@ func (s *Service) MigrateTopicStoreV1V2() (rErr error) {
 	}
 
 	backup := s.StorageService.Path() + TopicStoreBackupSuffix
+	// A process that died during an earlier migration never ran the deferred removal of its backup.
+	// The database itself is intact (the conversion is a single transaction and can be repeated),
+	// so the left-over copy is of no use and must not keep the service from starting.
+	if err = os.RemoveAll(backup); err != nil {
+		return fmt.Errorf("cannot remove stale backup of v1 topic store: %w", err)
+	}
 	var n int64
 	if n, err = CopyFile(s.StorageService.Path(), backup); err != nil {
 		return fmt.Errorf("cannot backup v1 topic store: %w", err)
